@@ -256,6 +256,11 @@ def _families():
         for how in ('arg', 'env', 'main'):
             for flag_where in ('cli-flag', 'main-flag'):
                 yield ('named-before-flags', (b, how, flag_where))
+        # a gitconfig section named like a built-in feature is a feature like any other: the features it names (and the
+        # built-in flags it sets) are enabled with it when it is named in a list
+        for how in ('arg', 'env', 'main', 'env+'):
+            for nested in ('features', 'flag'):
+                yield ('builtin-named-section', (b, how, nested))
         # a feature flag keeps enabling its built-in feature when a feature list (that does not set the option) is named too
         for how in ('arg', 'env', 'main'):
             for flag_where in ('cli-flag', 'main-flag', 'gcp-flag'):
@@ -486,6 +491,27 @@ def build(family, params, defaults):
         p.expected = S[0]
         p.why = 'features named by --features / DELTA_FEATURES come before feature flags'
         p.nsources = 2
+    elif family == 'builtin-named-section':
+        b, how, nested = params
+        if nested == 'features':
+            o = 'file-renamed-label'
+            S = sentinels(o, 6)
+            p = Placement(o)
+            p.sections[b] = {'features': 'f1'}
+            p.sections['f1'] = {o: S[0]}
+            p.expected = S[0]
+        else:
+            other = 'navigate' if b != 'navigate' else 'diff-so-fancy'
+            o, bval = BUILTIN_SETS[other]
+            p = Placement(o)
+            p.sections[b] = {other: 'true'}
+            p.expected = bval
+        if how == 'env+':
+            p.env_features = '+' + b
+        else:
+            enable_list(p, [b], how)
+        p.why = 'the section [delta "%s"] is enabled by name (%s) and enables %s' % (b, how, 'the feature f1' if nested == 'features' else 'a built-in feature by its flag')
+        p.nsources = 2
     elif family == 'flag-beside-list':
         b, how, flag_where, lst = params
         o, bval = BUILTIN_SETS[b]
@@ -584,7 +610,7 @@ def plan(ctx):
         rng = ctx.rng('c13')
         # the small families about interactions between sources (added after seeded changes slipped through a uniform
         # sample) run completely every time; the big product families are sampled
-        small = {'flag-beside-list', 'no-gitconfig-equals-empty', 'source-beside-unrelated-flag', 'custom-before-builtin', 'named-before-flags'}
+        small = {'flag-beside-list', 'builtin-named-section', 'no-gitconfig-equals-empty', 'source-beside-unrelated-flag', 'custom-before-builtin', 'named-before-flags'}
         pinned = [it for it in items if fam[it[1]][0] in small]
         rest = [it for it in items if fam[it[1]][0] not in small]
         rng.shuffle(rest)
